@@ -37,6 +37,21 @@ def _viol(prop: str, prog: Program):
     return {(r.rule, r.key) for r in ctx.results if r.status == VIOLATION}, ctx
 
 
+def _shift(block: str, by: int) -> Optional[str]:
+    """the block with every non-empty line indented by `by` more (or fewer) spaces; None if a line cannot lose that many"""
+    out = []
+    for ln in block.split("\n"):
+        if not ln.strip():
+            out.append(ln)
+        elif by >= 0:
+            out.append(" " * by + ln)
+        elif ln.startswith(" " * (-by)):
+            out.append(ln[-by:])
+        else:
+            return None
+    return "\n".join(out)
+
+
 def _run_case(args) -> Dict[str, Any]:
     prop, case, repo = args
     cid, kind, rel, old, new, expect = case
@@ -52,6 +67,13 @@ def _run_case(args) -> Dict[str, Any]:
         if m is None:
             return {"id": cid, "kind": kind, "status": "stale", "why": f"{r} missing"}
         text = texts.get(r, m.src)
+        if text.count(o) != 1:
+            # the block may have moved to another nesting depth (a try / with wrapped around it): same text, shifted
+            for shift in (4, 8, -4):
+                o2, n2 = _shift(o, shift), _shift(nw, shift)
+                if o2 is not None and n2 is not None and text.count(o2) == 1:
+                    o, nw = o2, n2
+                    break
         if text.count(o) != 1:
             return {"id": cid, "kind": kind, "status": "stale", "why": f"anchor occurs {text.count(o)}x: {o[:40]!r}"}
         texts[r] = text.replace(o, nw)
